@@ -8,7 +8,7 @@ CRATE = "e_fft"
 DRIVER = "drv_fft"
 DRIVER_MODULE = "Driver.Fft"
 PROPS = "RlibModel.Props.C04"
-PROFILES = ["release"]
+PROFILES = ["release", "debug"]     # debug: debug_assert! / cfg(debug_assertions) code of rlib_fft is live; a reduced stream (harness_args)
 SHRINK_SEP = ";"
 RULE = ("a case is a call history on ONE FFT object (`fft <f64|f32> ; op ; … ; op`, ops: update_n, multiply, multiply_into, fft, fft_into, "
         "fft_inv, fft_inv_into, fft+pointwise product+fft_inv on the same object (`fm`), with the inverse on a brand-new object (`fmx`) and "
@@ -50,6 +50,17 @@ RULE = ("a case is a call history on ONE FFT object (`fft <f64|f32> ; op ; … ;
         "abs2 = autocorrelation, `/` by the spectrum of a unit monomial = cyclic shift; i128 in the harness, Lean `SExpr.expected` "
         "on the S side); the envelope is carried through the expression (every product charged max(S1,S2)^2*min(L1,L2), sums add; "
         "for one product of two operands exactly the literal envelope). "
+        "Wave 4 (after seeded C04_m12: a `debug_assert!` in the block loop of multiply_into that rejects a destination ending inside a "
+        "block - debug builds only): BOTH build profiles - release (overflow-checks on) and debug (a plain `cargo build`: "
+        "debug_assert! / cfg(debug_assertions) code of rlib_fft live, overflow-checks on); the debug profile runs the same generator "
+        "families on a reduced stream (`--profile debug`: all length pairs <= 40, degenerate, tiny-first-calls, dest-sweep, spectral, "
+        "solo transforms, cyclic, every history / constructor / pool kind in full; thinned out are only the sizes: 2^6 every other "
+        "pair, 2^7 one in four, 2^8 and 2^9 one in eight, one pair per size 2^10..2^12, random lengths <= 256, unbalanced shapes above 110 "
+        "terms with three calls each, of the 4096 / 8192-term shapes three in f64; thorough tier: the whole quick stream); stream "
+        "`dest-sweep` (both profiles): EVERY destination length one by one - multiply_into on 18 small shapes (8 single-transform, "
+        "10 taking the block loop, both operand orders, lengths 0..=|a|+|b|+1, histogram `dest-sweep:mi:blocks:dest<long,inside-block` "
+        "etc.), fmi / fx / ii / fi for transform sizes 1..16 with lengths 0..=n+2, 2n, 2n+1; stream `unbalanced`: ALL block-relative "
+        "destination classes (not a choice of three) for every shape up to 700 terms. "
         "non-trivial = distinct in-domain case whose last call carries at least 3 coefficients")
 ASSUMPTIONS = [
     "the Lean model of rlib_fft is hand-written; it is tied to the code by running both on the same call histories",
@@ -63,6 +74,10 @@ ASSUMPTIONS = [
     "`peq=` (== / != of Complex<F> against the component-wise float comparison); the Lean side prints the proved specification",
     "`fft_into_adds` needs `x + (ZERO + y) = x + y`: true in exact arithmetic (proved for the exact instance), in IEEE arithmetic false only "
     "for x = y = -0.0; destinations are built from i32 values and are never -0.0 (TESTED by the `add=ok` view, bit for bit)",
+    "the debug-profile run uses a reduced case stream (the unoptimised build is ~10 times slower and the Lean model answers the stream "
+    "a second time); it is there for debug_assert! / cfg(debug_assertions) code in rlib_fft - overflow checks are on in both profiles; "
+    "calls that violate a precondition fft.rs states as debug_assert! (fft_into with |v| > n, fft_inv_into of an empty or non-power-of-two "
+    "spectrum) are made in neither profile (`valid`); the Lean model has no profile: it is the specification both builds must meet",
     "the envelope rule for spectral expressions (`SExpr.weight`) is the engine's reading of the property for expressions with more than "
     "one product: conservative (sums add, every product charged max^2*min), a single product is the literal envelope",
 ]
@@ -90,7 +105,7 @@ MANIFEST = {
              "history independent (`spectral_history_independent`); Level B - such an expression followed by fft_inv_into adds exactly the "
              "integer sequence the same expression denotes in Z[i][x]/(x^n-1) (`spectral_exact`: cyclic convolution theorem "
              "`dft_cyc_conv`, conjugation = index reversal, unit-monomial division = shift, linearity). "
-             "The hand-written model is tied to rlib_fft by a differential run on every check."),
+             "The hand-written model is tied to rlib_fft by a differential run on every check, against the release AND the debug build of the crate."),
     "note": ("PARTIAL: NOT proved, only TESTED differentially on every run: that the IEEE-754 rounding error of this operation sequence "
              "(binary64 / binary32, libm sin/cos) stays below 0.5 inside the envelope, i.e. that the float instance rounds to the value the "
              "exact instance is proved to have. Tested at the envelope boundary max^2*min(len) = 1e12 (f64) / 1e3 (f32) with 8 coefficient "
@@ -108,6 +123,12 @@ MANIFEST = {
 
 
 BOUNDS = {"f64": 10**12, "f32": 10**3}
+
+
+def harness_args(params, profile):
+    """the generator reduces its stream for the unoptimised build (`--profile debug`: same families, fewer large sizes);
+    `run` ignores the argument"""
+    return ["--profile", profile]
 
 
 def _table(src, name):
